@@ -24,6 +24,12 @@ CLAIMED.update({
         'The generator->performer composition and name uniqueness are covered only by labelled bounded stand-ins.',
    note='Unchecked: LiteRT allocate/invoke (external runtime); flatbuffer serializer fidelity; object-API classes modelled as attribute bags; numpy int32 index arrays as int lists. Performer op-id bookkeeping: see evidence (contracts in progress).',
    design='§4 C01'),
+ 'C11': dict(
+   technique='contract-based deductive verification: AST symbolic executor over the real RecipeManager code (ordered-map heap model, nested loop invariants, try/except, calls by contract), typed quantifier instantiation -> QF VCs (z3)',
+   level='proof',
+   text='add_quantization_config is proved against the abstract ordered view (star resets the scope in place, same operator replaced in place, otherwise appended, new regex appended in first-insertion order, other scopes untouched, state unchanged when the support check raises, raises only then) and get_quantization_configs against the recursive "last applicable rule" spec transcribed from the property, for any number of scopes and rules; resolution performs no heap store (purity). search(regex, scope) and supported(alg, op, cfg) are uninterpreted, exactly as in the property.',
+   note='re.search / support check uninterpreted pure functions (ValueError-only: C13); configs compared by abstract identity; load = clear + fold(add) is a syntactic dataflow obligation; histories additionally compared with a Python transcription of the spec in a bounded stand-in.',
+   design='§4 C11'),
  'C12': dict(
    technique='contract-based verification by exhaustive native execution of the real to_dict/from_dict/__post_init__/RecipeManager code over the finite config skeleton with opaque integers (parametricity => all integers)',
    level='proof',
